@@ -39,6 +39,10 @@ pub enum SOp {
     NestedLoopDisconnect(Who),
     /// container calls on a container holding all nodes: get, remove + re-insert
     Container(Who),
+    /// disconnect(a, b) followed by connect(a, b, new value): the list keeps its length
+    Reweight(Who, Who, EV),
+    /// disconnect(a, b) followed by connect(a, c, value)
+    Redirect(Who, Who, Who, EV),
 }
 #[derive(Clone, Copy, Debug, PartialEq, Eq, Hash, Serialize, Deserialize)]
 pub enum LoopKind {
@@ -116,7 +120,21 @@ impl<'a, F: Flavour> LoopState<'a, F> {
         }
         // 2. run the script operations scheduled for this yield
         let script = self.script;
+        let mut expanded: Vec<(usize, SOp)> = vec![];
         for (at, op) in script.iter().filter(|x| x.0 == i) {
+            match *op {
+                SOp::Reweight(a, b, ev) => {
+                    expanded.push((*at, SOp::Disconnect(a, b)));
+                    expanded.push((*at, SOp::Connect(a, b, ev)));
+                }
+                SOp::Redirect(a, b, c, ev) => {
+                    expanded.push((*at, SOp::Disconnect(a, b)));
+                    expanded.push((*at, SOp::Connect(a, c, ev)));
+                }
+                o => expanded.push((*at, o)),
+            }
+        }
+        for (at, op) in expanded.iter() {
             let _ = at;
             let r = self.root;
             let w = |x: Who| who(x, s, d, r, n);
@@ -158,6 +176,7 @@ impl<'a, F: Flavour> LoopState<'a, F> {
                         guard < 64
                     });
                 }
+                SOp::Reweight(..) | SOp::Redirect(..) => unreachable!("expanded above"),
                 SOp::Container(a) => {
                     let k = w(a) as Key;
                     let mut c = self.container.borrow_mut();
@@ -203,7 +222,7 @@ pub fn run_case<F: Flavour>(c: &LCase, st: &mut Stats, counting: bool) -> bool {
     }
     // handles obtained before the loop: clones, neighbour lookups, edges
     let early_edges: Vec<F::Edge> = nodes.iter().flat_map(|nd| F::edges(nd, IterKind::Out)).collect();
-    let connects = c.script.iter().filter(|x| matches!(x.1, SOp::Connect(..) | SOp::TryConnect(..))).count();
+    let connects = c.script.iter().filter(|x| matches!(x.1, SOp::Connect(..) | SOp::TryConnect(..) | SOp::Reweight(..) | SOp::Redirect(..))).count();
     let budget = 4 * (c.g.edges.len() + connects) + 16;
     let transposed = match (&c.kind, &c.cell) {
         // iter_in yields edges in stored orientation (source, this node, value); only transpose() reverses
@@ -402,6 +421,8 @@ fn sop_strategy() -> impl Strategy<Value = SOp> {
         1 => (who(), who()).prop_map(|(a, b)| SOp::Nested(a, b)),
         1 => who().prop_map(SOp::NestedLoopDisconnect),
         1 => who().prop_map(SOp::Container),
+        3 => (who(), who(), 60u32..64).prop_map(|(a, b, e)| SOp::Reweight(a, b, e)),
+        2 => (who(), who(), who(), 64u32..68).prop_map(|(a, b, c, e)| SOp::Redirect(a, b, c, e)),
     ]
 }
 
@@ -410,18 +431,39 @@ struct RawL {
     g: RawG,
     kind: u16,
     script: Vec<(usize, SOp)>,
+    /// Some(d): replace the graph by a hub — the root gets d edges (out, in, or both) so that long adjacency lists are iterated
+    hub: Option<(u8, u8)>,
 }
 
 fn rawl_strategy() -> impl Strategy<Value = RawL> {
-    (rawg_strategy(10), any::<u16>(), proptest::collection::vec((0usize..6, sop_strategy()), 1..=6)).prop_map(|(g, kind, script)| RawL { g, kind, script })
+    (rawg_strategy(10), any::<u16>(), proptest::collection::vec((prop_oneof![3 => 0usize..3, 1 => 3usize..12], sop_strategy()), 1..=6), proptest::option::weighted(0.3, (6u8..18, 0u8..3))).prop_map(|(g, kind, script, hub)| RawL { g, kind, script, hub })
 }
 
 impl RawL {
     fn case(&self) -> LCase {
-        let g = self.g.graph();
+        let mut g = self.g.graph();
         let kinds = loop_kinds();
         let (kind, cell) = kinds[pt::idx(self.kind, kinds.len())].clone();
-        let root = pt::idx(self.g.root, g.n) as Key;
+        let mut root = pt::idx(self.g.root, g.n) as Key;
+        if let Some((d, dir)) = self.hub {
+            // hub: node 0 with d edges to/from the other nodes (parallel edges when d > n-1), existing edges kept after them
+            let n = g.n.max(4);
+            g.n = n;
+            g.prio.resize(n, 0);
+            let mut edges: Vec<Tri> = vec![];
+            for i in 0..d as usize {
+                let peer = (1 + i % (n - 1)) as Key;
+                if dir != 1 {
+                    edges.push((0, peer, 200 + i as EV));
+                }
+                if dir != 0 {
+                    edges.push((peer, 0, 300 + i as EV));
+                }
+            }
+            edges.extend(g.edges.iter().cloned());
+            g.edges = edges;
+            root = 0;
+        }
         LCase { g, root, kind, cell, script: self.script.clone() }
     }
 }
@@ -504,6 +546,9 @@ pub fn run(ctx: &mut Ctx) {
             let c = raw.case();
             if counting {
                 let mut st = cell.borrow_mut();
+                if raw.hub.is_some() {
+                    st.class("random.hub-graph(long adjacency list at the root)");
+                }
                 if c.g.edges.len() >= 4 && c.script.len() >= 2 {
                     st.sample_kind("random", 1, || json!({"random_loop_case": c}));
                 }
